@@ -338,15 +338,21 @@ func (c *Ctx) rewriteOfE(v ssa.Value, e *env) (inner ssa.Value, ie *env, desc st
 		return nil, nil, "", false
 	}
 	from := map[string]bool{}
-	for _, p := range pairs {
-		if len(p[0]) != 1 || len(p[1]) > 1 || from[p[0]] {
-			return nil, nil, "", false
+	if len(pairs) == 1 && len(pairs[0][0]) == 1 {
+		// one character replaced by one text in a single pass: ReplaceAll, a one-pair Replacer and a byte-wise
+		// copy all give the same result, whatever the text is ('→'')
+		from[pairs[0][0]] = true
+	} else {
+		for _, p := range pairs {
+			if len(p[0]) != 1 || len(p[1]) > 1 || from[p[0]] {
+				return nil, nil, "", false
+			}
+			from[p[0]] = true
 		}
-		from[p[0]] = true
-	}
-	for _, p := range pairs {
-		if from[p[1]] {
-			return nil, nil, "", false
+		for _, p := range pairs {
+			if from[p[1]] {
+				return nil, nil, "", false
+			}
 		}
 	}
 	var parts []string
